@@ -23,7 +23,7 @@ SD = "WireMutate"
 INVS = ["TypeOK", "BaseDerivable", "BaseZeroIsEither", "MapConsistent", "AcceptDerivable", "MutationApplied", "UnchangedAccepted", "TruncationRejected",
         "TruncationInsideVariablePartRejected", "OverrunRejected", "DataLengthNeverAccepted", "HugeNeverAccepted", "SpliceDisagrees", "NameNulChecked",
         "VersionChecked", "EncodingChecked", "NonFlatNeverAccepted"]
-NBASE = {"tiny": 4, "quick": 53, "thorough": 91}
+NBASE = {"tiny": 4, "quick": 53, "thorough": 250}
 # deliberately wrong specifications: each must violate the named invariant (vacuity guard for the invariants)
 WRONG = [("enc_name_without_nul", "BaseDerivable"), ("ignore_field_count", "TruncationRejected"), ("item_budget_is_buffer", "SpliceDisagrees"), ("no_nul_check", "NameNulChecked")]
 ENCORD = {"msg": 0, "tmpl": 1, "frame": 2, "tun": 3, "mtun": 4}
@@ -72,7 +72,7 @@ def run(v, tier, seed):
 
     def enumerate_shard(menu, lo, hi, workers):
         c = cfg(tag, "Gen_%d_%d" % (lo, hi), menu, lo, hi, True); made.append(c)
-        r = vlib.tlc("WireMutate", c, SD, workers=workers, timeout=(300 if quick else 2400), heap="6g")
+        r = vlib.tlc("WireMutate", c, SD, workers=workers, timeout=(300 if quick else 2400), heap="3g")
         vlib.require_ok(r, "WireMutate %s bases %d..%d" % (menu, lo, hi))
         return r
 
@@ -85,7 +85,7 @@ def run(v, tier, seed):
     menu = "quick" if quick else "thorough"
     nb = NBASE[menu]
     if quick: shards = [(1, 27, 3), (28, 52, 3), (53, 53, 3)]
-    else: shards = [(lo, min(lo + 7, 88), 2) for lo in range(1, 89, 8)] + [(89, 89, 2), (90, 90, 2), (91, 91, 2)]
+    else: shards = [(248, 248, 2), (249, 249, 2), (250, 250, 2)] + [(lo, min(lo + 12, 247), 2) for lo in range(1, 248, 13)]
     try:
         with cf.ThreadPoolExecutor(max_workers=(6 if quick else 7)) as ex:
             f_build = ex.submit(build)
@@ -167,7 +167,8 @@ def run(v, tier, seed):
             nd += 1
             if rc == 2 or (idx < 0 and rc not in (66, 67, 3, -6, -11, 134, 139)): raise vlib.MachineryError("%s could not run (exit %s): %s %s" % (name, rc, out[-500:], err[-1500:]))
             deaths.append((name, rc, idx, err[-6000:]))
-            if nd >= max_deaths or idx < 0 or (time.time() - t0) > timeout: return rows, nd
+            nhang = len([d for d in deaths if d[0] == name and d[1] == 3])
+            if nd >= max_deaths or nhang >= 3 or idx < 0 or (time.time() - t0) > timeout: return rows, nd
             start = idx + 1
 
     def run_cases(j):
